@@ -176,6 +176,42 @@ func worldGroups(w *World) {
 		}()
 	}
 
+	// recreate: once the last member has left, the endpoint can be created again immediately, by anybody,
+	// under another group name and key (for tcp: asking for the very port the group had, also when the server chose it)
+	recreate := func(when string) {
+		if len(members) != 0 || (kind == "tcp" && realPort == 0) || r.Intn(2) == 0 {
+			return
+		}
+		var c *lcClient
+		for _, o := range clients {
+			if !o.IsClosed() {
+				c = o
+			}
+		}
+		if c == nil {
+			return
+		}
+		w.Check("C13.recreate-after-last-leave")
+		f := mkReq("other", "another-key", 0)
+		f["group"] = "G2"
+		grouped := r.Intn(3) > 0
+		if !grouped {
+			delete(f, "group")
+			delete(f, "group_key")
+		}
+		if kind == "tcp" {
+			f["remote_port"] = realPort
+		}
+		hist("%s.recreate(%s)", c.Name, jsonStr(f))
+		rr, got := c.register(f)
+		hist("  -> %s", jsonStr(rr))
+		if !got || mstr(rr, "error") != "" {
+			viol("endpoint", "endpoint-not-creatable-after-last-leave", "%s: after the last member left, a new registration for the same endpoint (grouped=%v, port %d) was refused: %v; history: %v", when, grouped, realPort, rr, history)
+			return
+		}
+		c.CloseProxy("other")
+		syncCtl(c)
+	}
 	names := []string{"m0", "m1", "m2", "m3", "m4"}
 	nops := w.KnobPick("nops", 6, 12, 24)
 	focusRace := w.KnobBool("focus_race", 50)
@@ -275,6 +311,7 @@ func worldGroups(w *World) {
 			syncCtl(c)
 			delete(members, n)
 			checkProbe("after-leave")
+			recreate("after-leave")
 		case k < 13: // session drop
 			hist("%s.drop", c.Name)
 			c.Drop()
@@ -295,6 +332,7 @@ func worldGroups(w *World) {
 			}
 			time.Sleep(2 * time.Second)
 			checkProbe("after-session-drop")
+			recreate("after-session-drop")
 		case k < 17:
 			checkProbe("steady")
 		case k < 18: // http rotation over stable members
